@@ -107,6 +107,10 @@ func (n *LocalNode) RequestToJoin(joiner chord.VNode) (chord.VNode, []chord.VNod
 	verifhook.At("rtj:enter", n.ID())
 	succ, err := n.FindSuccessor(joiner.ID())
 	if err != nil {
+		if err == chord.ErrNodeGone {
+			// the lookup was routed through a node that is leaving or has left, the joiner needs to retry
+			return nil, nil, chord.ErrJoinInvalidState
+		}
 		return nil, nil, err
 	}
 	if succ.ID() == joiner.ID() {
